@@ -19,4 +19,8 @@ sed -i "s#path = \"/repo\"#path = \"$d/repo\"#" $d/harness/Cargo.toml
 if [ $first = 1 ] && [ -d /verif/harness/target ]; then
   cp -r /verif/harness/target $d/harness/target    # reuse the compiled dependencies
 fi
+# cargo decides freshness by mtime and rsync -a keeps the (older) mtimes of restored files:
+# make sure the crates are recompiled from what is on disk now
+touch $d/repo/src/lib.rs
+find $d/harness -path '*/src/*.rs' -not -path '*/target/*' -exec touch {} +
 echo "VERIF_HARNESS_DIR=$d/harness VERIF_OUT=$d/out"
